@@ -42,6 +42,9 @@ func NewReceiver(ctx context.Context, opts *Options, cfg *Config) (*Receiver, er
 }
 
 // SegmentHandlerFunc is a handler for receiving segments, but will also accept MPDs (extension .mpd).
+// maxInitialBufSize is the largest buffer allocated for an upload before any of its data has arrived.
+const maxInitialBufSize = 1 << 20
+
 func (r *Receiver) SegmentHandlerFunc(w http.ResponseWriter, req *http.Request) {
 	// Extract the path and filename from URL
 	// Drop the first part that should be /upload or similar as specified by prefix.
@@ -296,12 +299,13 @@ func (r *Receiver) SegmentHandlerFunc(w http.ResponseWriter, req *http.Request) 
 	}
 
 	log.Debug("Receiving file", "url", path, "contentLength", contentLength, "totSize", rsd.totSize)
-	var buf []byte
+	// The Content-Length header only gives the initial size of the buffer, which grows with the data that arrives.
+	// It must not decide how much memory is allocated: a header of a few bytes can announce exabytes.
+	bufSize := 1024
 	if contentLength > 0 {
-		buf = make([]byte, contentLength)
-	} else {
-		buf = make([]byte, 1024)
+		bufSize = min(contentLength, maxInitialBufSize)
 	}
+	buf := make([]byte, bufSize)
 	if ch.receiveNrRaws == 0 {
 		p := chunkparser.NewMP4ChunkParser(req.Body, buf, chunkParserCallback)
 		err = p.Parse()
